@@ -50,4 +50,5 @@ def run(prog: Program, col: Collector, tier: str, refs: Optional[Refs] = None, c
     algebra.r_inverse_rules(prog, col, refs, cat, "R01.7")
     algebra.r_pushdown(prog, col, refs, cat, "R01.8")
     algebra.r_number_tensor_siblings(prog, col, refs, cat, "R01.9")
+    algebra.r_absent_vars_kernel(prog, col, refs, cat, "R01.10")
     return col
